@@ -28,8 +28,10 @@ def run(tier: str) -> int:
             {"Family": "core2", "MaxLen": 5, "Starts": "zero", "Sample": 0, "workers": 8},
             {"Family": "core3", "MaxLen": 4, "Starts": "zero", "Sample": 0, "workers": 12},
         ]
+    # choices of literals / ranges in every order, also through the optimizer (ordered choice must survive squashing)
+    fams.append({"Family": "optsq", "MaxLen": 3 if not thorough else 4, "Starts": "zero", "Sample": 250 if not thorough else 0, "workers": 3 if not thorough else 8, "style": "min", "modes": ("interp", "gen", "opt", "optgen")})
     for f in fams:
-        replay.run_family(rep, f, "sem", modes)
+        replay.run_family(rep, f, "sem", f.get("modes", modes))
     rep.rule = (
         "grammars: all core-operator terms to depth 2 (core2) / 3 (core3) over atoms {\"a\",\"b\",\"ab\",^\"a\",'a'..'b',ANY,ASCII_ALPHA_UPPER,SOI,EOI,s,t} "
         "with helper rules s (normal/silent) and recursive t; inputs: all strings over {a,b,A} up to MaxLen; a case = (grammar, input); "
